@@ -151,4 +151,35 @@ Definition blocking_of (e : sexpr) : bk := t_blocking (traits_of e).
 Definition sends_done_of (e : sexpr) : bool := t_sends_done (traits_of e).
 Definition affine_of (e : sexpr) : bool := t_affine (traits_of e).
 
+(* ---- the RUN-TIME answer unifex::blocking(s) for the same C++ expression ---------------------
+   blocking.hpp:94-112: a tag_invoke customisation if one matches the CPO, otherwise the static
+   Sender::blocking.  Customisations that forward to the children's run-time answer:
+     then.hpp:188-191, with_query_value.hpp:180-183, materialize.hpp:221-224 (child);
+     let_value.hpp:426-435, let_error.hpp:436-446, let_done.hpp:329-335
+        (max(rt(pred), min(STATIC successor, maybe)));
+     finally.hpp:691-696, stop_when.hpp:373-378 (max of the two children's run-time answers).
+   upon_error.hpp:172-175, upon_done.hpp:192-195, unstoppable.hpp:71-74, sequence.hpp:307-313 and
+   when_all.hpp:371-380 spell their customisation tag_t<blocking>, which inside the class names the
+   static data member [blocking], not the CPO: it never matches and the CPO answers with the static
+   value.  Mirrored as written. *)
+Definition rt_let (rt_pred static_succ : bk) : bk := bk_max rt_pred (bk_min static_succ BMaybe).
+
+Fixpoint rt_blocking_of (e : sexpr) : bk :=
+  match e with
+  | Un k s =>
+      match k with
+      | UThen _ | UWithQ _ _ => rt_blocking_of s
+      | UMat => rt_blocking_of s                                  (* then -> materialize -> s *)
+      | UDoneOpt => rt_let (rt_blocking_of s) (t_blocking tr_just) (* then -> let_done(then(s), just) *)
+      | UUponErr _ | UUponDone _ | UUnstoppable => blocking_of e   (* customisation never matches *)
+      end
+  | Bin k a b =>
+      match k with
+      | BLetV | BLetE | BLetD => rt_let (rt_blocking_of a) (blocking_of b)
+      | BFinally | BStopWhen => bk_max (rt_blocking_of a) (rt_blocking_of b)   (* then(b) -> b *)
+      | BSeq | BWhenAll => blocking_of e                           (* customisation never matches *)
+      end
+  | _ => blocking_of e                                             (* just / k2::inl / k2::leaf *)
+  end.
+
 End CalcTraits.
